@@ -516,6 +516,14 @@ UserPause(t) ==
   /\ obs' = NoObs
   /\ Env
 
+\* TransferManager.remove: the record is aborted (if it can be) and taken out of the list of transfers.
+\* It may land inside a suspended cycle like any other step; the cycle must still deal with the others.
+UserRemove(t) ==
+  /\ up[t].st # "NONE"
+  /\ up' = [up EXCEPT ![t] = NoUp]
+  /\ obs' = NoObs
+  /\ Env
+
 ----------------------------------------------------------------------------
 Change ==
   \/ \E d \in Dirs, m \in Modes : SetMode(d, m)
@@ -531,7 +539,7 @@ Change ==
   \/ \E t \in T : QueueRequest(t[1], t[2]) \/ TransferRequest(t[1], t[2])
   \/ CycleBegin \/ CycleEnd
   \/ AbortsDone
-  \/ \E t \in T : PeerAccept(t) \/ PeerFinish(t) \/ PeerReject(t) \/ UserAbort(t) \/ UserPause(t)
+  \/ \E t \in T : PeerAccept(t) \/ PeerFinish(t) \/ PeerReject(t) \/ UserAbort(t) \/ UserPause(t) \/ UserRemove(t)
 
 Look ==
   \/ \E u \in Users, q \in Queries : SearchFrom(u, q)
@@ -608,7 +616,8 @@ BytesOnlyWhileUploading ==
   obs.k = "bytes" => up[<<obs.u, obs.p>>].st \in {"INITIALIZING", "UPLOADING"}
 
 \* Uploads aborted on the user's request stay aborted (and keep saying so).
-RequestedStaysA == \A t \in T : (up[t].st = "ABORTED" /\ up[t].reason = "Requested") => up'[t] = up[t]
+RequestedStaysA == \A t \in T : (up[t].st = "ABORTED" /\ up[t].reason = "Requested") =>
+                                     (up'[t] = up[t] \/ up'[t].st = "NONE")        \* (or are removed)
 RequestedStays == [][RequestedStaysA]_vars
 
 \* Convergence: once the user-management job has seen the settings and a management cycle has run
